@@ -205,6 +205,13 @@ func findSniffer(c *Ctx, rule string) *sniffer {
 				arg = ce.Args[1]
 			}
 		}
+		for {
+			if pe, ok := arg.(*ast.ParenExpr); ok {
+				arg = pe.X
+				continue
+			}
+			break
+		}
 		if u, ok := arg.(*ast.UnaryExpr); ok && u.Op == token.AND {
 			if o := objOf(d.pkg, u.X); o != nil {
 				if st, ok := o.Type().Underlying().(*types.Struct); ok {
